@@ -37,14 +37,18 @@ def main(run: Run):
     else:
         fc.design(run, ["attr", "ext", "nlri", "other"] if thorough else ["nlri", "other"])
         # 1. TLC-enumerated shapes -> real octets (the C04 replayer records them)
-        shapes = []
-        for sw in SHAPE_SWEEPS:
-            shapes += fc.gen_shapes(run, sw, seed=run.seed)
-        shapes += fc.gen_shapes(run, "random", num=(400 if thorough else 80), seed=run.seed)
+        shapes, sweep_of = [], []
+        for sw in SHAPE_SWEEPS + ["openinner"]:
+            g = fc.gen_shapes(run, sw, seed=run.seed)
+            shapes += g
+            sweep_of += [sw] * len(g)
+        g = fc.gen_shapes(run, "random", num=(400 if thorough else 80), seed=run.seed)
+        shapes += g
+        sweep_of += ["random"] * len(g)
         tr = run.execute("c04", "pkg/packet/bgp", "^TestVerifC04$", shapes, tag="c05-shapes")
         maxlen = 800 if thorough else 400
         small, big, always, seen = [], [], [], set()
-        for t in tr:
+        for ti, t in enumerate(tr):
             for row in t:
                 if row.get("ev") != "Msg" or row["sererr"] or row["panic"]:
                     continue
@@ -54,7 +58,10 @@ def main(run: Run):
                 seen.add(key)
                 o = row["opts"]
                 m = {"bytes": row["bytes"], "opts": {k: o[k] for k in ("ext", "as2", "ap4", "apmp")}}
-                if (row["shape"]["k"] == "ex" and len(row["bytes"]) <= 1200
+                if sweep_of[ti] == "openinner":
+                    # capabilities with inner length fields, last / followed by a capability / by a parameter
+                    always.append(m)
+                elif (row["shape"]["k"] == "ex" and len(row["bytes"]) <= 1200
                         and not o["as2"] and (thorough or not (o["ap4"] or o["apmp"]))):
                     # the example catalogue (every attribute type, all 26 families) is mutated in every
                     # run, whatever the seed; the value-length-class shapes are sampled
@@ -64,7 +71,7 @@ def main(run: Run):
         rng.shuffle(small)
         rng.shuffle(big)
         big = [m for m in big if len(m["bytes"]) <= 4096]
-        msgs = always + small[:(170 if thorough else 80)] + big[:(3 if thorough else 1)]
+        msgs = always + small[:(170 if thorough else 70)] + big[:(3 if thorough else 1)]
         # 2. TLC enumerates (length field x mutation) over the real octets
         muts = gen_mutations(run, msgs)
         # sample per message, so that a message with a thousand NLRI does not crowd out the others
